@@ -48,7 +48,7 @@ def canon_results(res: Any) -> dict:
         "total_duration": int(res.total_duration),
         "tags": {},
     }
-    for tag in res.get_result_tags():
+    for tag in sorted(res.get_result_tags()):  # pulser's aggregate() stores tags in set-iteration order
         times = res.get_result_times(tag)
         vals = res.get_tagged_results()[tag]
         out["tags"][tag] = [(float(t), canon_value(v)) for t, v in zip(times, vals)]
